@@ -203,8 +203,8 @@ def _run(pm: ProgramModel, ctx: Ctx, mb: ModelBuilder, cd: Codec) -> None:
               "constraint shapes that stress normal forms", ("constraint", "constraint-count"))
     cd.large(mb, ("AND", "OR", "IMPLIES", "EQUIVALENCE"))
     cd.polarity(mb, ("AND", "OR", "IMPLIES", "EQUIVALENCE", "REQUIRES", "EXCLUDES"), "OPS")
-    cd.writer_reuse(mb)
-    cd.reader_reuse(mb)
+    cd.writer_reuse(mb, list_attr=True)
+    cd.reader_reuse(mb, list_attr=True)
     # PAIRS: every two-way combination of classes of different dimensions on one feature ------------------------------
     from ..interact import Fragment, sweep
     pv = {k: values[k] for k in ("none", "true", "int", "negative-int", "float", "float-integral", "str", "numeric-string",
